@@ -13,7 +13,8 @@ Inductive sstmt :=
 | SWriteSlice         (* curr_volume[slice_counter : slice_counter + n] = output_abs *)
 | SAddCounter         (* slice_counter += n *)
 | SYield              (* yield (curr_volume, ..., filename) *)
-| SIf (c : cond) (body : list sstmt).
+| SIf (c : cond) (body : list sstmt)
+| SIfElse (c : cond) (body orelse : list sstmt).   (* if / elif / else *)
 
 Section Skel.
 Variables (Name Out : Type).
@@ -59,6 +60,15 @@ Fixpoint exec1 (fuel : nat) (st : sstmt) (fname : Name) (outs : list Out) (s : z
                                        end) body s ys
                        end
                   else Some (s, ys)
+  | SIfElse c body orelse =>
+                  match fuel with
+                  | O => None
+                  | S fuel' => (fix go (l : list sstmt) (s : zst) (ys : list (Name * list (option Out))) :=
+                                  match l with
+                                  | [] => Some (s, ys)
+                                  | x :: r => match exec1 fuel' x fname outs s ys with Some (s', ys') => go r s' ys' | None => None end
+                                  end) (if holds c s fname then body else orelse) s ys
+                  end
   end.
 
 Fixpoint exec (fuel : nat) (l : list sstmt) (fname : Name) (outs : list Out) (s : zst) (ys : list (Name * list (option Out))) :=
@@ -79,9 +89,22 @@ Fixpoint zrun (body : list sstmt) (s : zst) (batches : list (Name * list Out)) :
                                              end
                           end
   end.
+(* the same loop for a body that needs another nesting depth (the regenerated body is run with this one) *)
+Fixpoint zrun_f (fuel : nat) (body : list sstmt) (s : zst) (batches : list (Name * list Out)) : option (zst * list (Name * list (option Out))) :=
+  match batches with
+  | [] => Some (s, [])
+  | (fname, outs) :: t => match exec fuel body fname outs s [] with
+                          | None => None
+                          | Some (s', ys) => match zrun_f fuel body s' t with
+                                             | None => None
+                                             | Some (s'', ys') => Some (s'', ys ++ ys')
+                                             end
+                          end
+  end.
 End Skel.
 
-(* the body as it stands in the source (the tie proves the regenerated one equal to it) *)
+(* the reference body (the tie proves that one loop iteration of the regenerated body and of this one are the same
+   function of (file name, batch outputs, state)) *)
 Definition spec_body : list sstmt :=
   [SIf CLastIsNone [SSetLastFile];
    SIf CLastNeqFile [SResetVolume; SResetCounter; SSetLastFile];
